@@ -108,6 +108,9 @@ class Ctx:
         self.samples = []
         self.nt_samples = []
         self.failures = {}          # sig -> dict(count, case, detail)
+        self.replay_fn = None       # set by the task runner: used to validate recorded cases
+        self.entry_case = None      # case the outermost check_* function was entered with
+        self._depth = 0
         self.target_sig = None      # shrinking pass: raise on this signature
         self.last_target_case = None
         self.deadline = None
@@ -132,11 +135,32 @@ class Ctx:
             tgt.append(jsonable(case))
 
     # -- failures
+    def _reproduces(self, sig, case):
+        if self.replay_fn is None:
+            return True
+        sub = Ctx(self.prop, self.tier, self.seed, task='validate')
+        try:
+            self.replay_fn(sub, unjson(jsonable(case)))
+        except BaseException:                           # noqa: BLE001
+            return False
+        return sig in sub.failures
+
     def fail(self, sig, case, detail):
         sig = str(sig)
         rec = self.failures.get(sig)
         if rec is None:
-            self.failures[sig] = {'count': 1, 'case': jsonable(case), 'detail': jsonable(detail), 'task': self.task}
+            # a check may hand in a reduced case (one element of an array, one route of several): keep it only if
+            # it reproduces the same signature on its own, else fall back to the case the check was entered with
+            chosen, note = case, None
+            if self.replay_fn is not None and self.target_sig is None:
+                if not self._reproduces(sig, case):
+                    if self.entry_case is not None and self._reproduces(sig, self.entry_case):
+                        chosen = self.entry_case
+                    else:
+                        chosen, note = (self.entry_case if self.entry_case is not None else case), 'not reproduced in isolation'
+            self.failures[sig] = {'count': 1, 'case': jsonable(chosen), 'detail': jsonable(detail), 'task': self.task}
+            if note:
+                self.failures[sig]['note'] = note
         else:
             rec['count'] += 1
         if self.target_sig is not None and sig == self.target_sig:
@@ -172,6 +196,29 @@ class Ctx:
 
 
 # ------------------------------------------------------------------ hypothesis helpers
+def wrap_checks(g):
+    """Wrap every check_* function of a property module so that the outermost call records its case."""
+    import functools
+
+    def entry(fn):
+        @functools.wraps(fn)
+        def w(ctx, case, *a, **k):
+            if ctx._depth == 0:
+                ctx.entry_case = case
+            ctx._depth += 1
+            try:
+                return fn(ctx, case, *a, **k)
+            finally:
+                ctx._depth -= 1
+        w._wrapped = True
+        return w
+    for name, fn in list(g.items()):
+        if name.startswith('check_') and callable(fn) and not getattr(fn, '_wrapped', False):
+            g[name] = entry(fn)
+    if 'CHECKS' in g:
+        g['CHECKS'] = {k: g[v.__name__] for k, v in g['CHECKS'].items()}
+
+
 def hyp_settings(n, shrink=False):
     import hypothesis
     from hypothesis import settings, HealthCheck, Phase
@@ -225,7 +272,9 @@ def run_machine(ctx, machine_cls, n, steps, seed):
 
 # ------------------------------------------------------------------ task execution
 def _load(prop):
-    return importlib.import_module('fxverif.props.' + prop.lower())
+    mod = importlib.import_module('fxverif.props.' + prop.lower())
+    wrap_checks(mod.__dict__)
+    return mod
 
 
 def _task_seed(seed, idx):
@@ -240,6 +289,7 @@ def _run_task(arg):
         mod = _load(prop)
         ctx = Ctx(prop, tier, seed, task=name)
         ctx.task_seed = _task_seed(seed, idx)
+        ctx.replay_fn = mod.replay
         if target_sig is not None:
             ctx.target_sig = target_sig
             ctx.deadline = time.time() + budget
